@@ -227,6 +227,12 @@ def run(case, prop):
     except RecursionError: raise
     except Exception as ex:
         e = err(ex)
+    if e.startswith('ok'):
+        try:
+            v2 = evaluate(parse(s))
+            if v2 != val: viol.append('two-step| evaluate(parse(%r)) = %r, evaluate(%r) = %r' % (s, v2, s, val))
+        except RecursionError: raise
+        except Exception as ex2: viol.append('two-step| evaluate(parse(%r)) raised %s, evaluate(%r) = %r' % (s, type(ex2).__name__, s, val))
     tags['eval:' + e.split(' ')[0] + ('' if e.startswith('ok') else ' ' + e.split(' ')[0])] = 1
     if e.startswith('internal') or p.startswith('internal'):
         viol.append('internal-error| evaluate/parse raised %s (only the parse error and ZeroDivisionError are allowed)' % (e if e.startswith('internal') else p).split(' ', 1)[1])
